@@ -205,6 +205,8 @@ func (c *Ctx) Sample(s any) {
 	c.mu.Unlock()
 }
 
+func (c *Ctx) SamplesForDebug() []any { return c.samples }
+
 func (c *Ctx) Assume(s string) { c.Assumptions = append(c.Assumptions, s) }
 
 // Absorb folds one job result into the evidence and collects violations for this check's property.
